@@ -113,6 +113,9 @@ func verifyFunction(P *Program, key string) (res *FuncResult) {
 	}
 	x.stack = nil
 	res.Args = args
+	if ctr != nil && len(ctr.ArgWrites) > 0 {
+		x.rootArgW = x.argWriteKeys(ctr, args)
+	}
 	if ctr != nil {
 		bvals := x.bindingValues(st, fn, bindings)
 		x.clauseFn = fn
